@@ -2,6 +2,7 @@ import Copia.Driver.Util
 import Copia.Driver.C19
 import Copia.Model.OneWay
 import Copia.Model.Quote
+import Copia.Model.Target
 namespace Copia.Driver.C04
 open Copia.OneWay Copia.Plan Copia.Driver
 
@@ -36,6 +37,16 @@ def handle : List String → Option String
     match Copia.Quote.ansiC x.toList with
     | some (d, r) => some s!"{hexStr (String.ofList d)} {hexStr (String.ofList r)}"
     | none => some "NONE"
+  | ["loc", x] => do
+    let x ← if x = "-" then some "" else unhexStr x
+    match Copia.Target.parseLocation x.toList with
+    | .localPath p => some s!"L {hexStr (String.ofList p)}"
+    | .remote h p => some s!"R {hexStr (String.ofList h)} {hexStr (String.ofList p)}"
+  | ["target", x] => do
+    let x ← if x = "-" then some "" else unhexStr x
+    match Copia.Target.splitTarget x.toList with
+    | none => some "L"
+    | some (h, r) => some s!"R {hexStr (String.ofList h)} {hexStr (String.ofList r)}"
   | _ => none
 
 end Copia.Driver.C04
